@@ -10,7 +10,8 @@
    the contract of the recorded tape -- every block reported clean has no motif-avoidant attractor
    (BlockMath.block_clean), every NFVS hits every negative cycle -- which the extracted LogChecks predicates
    decide on every replayed run.  The source-SCC strategy is modelled (SCC.v) and replayed id by id against expand_scc, but the
-   clause fails for it: KNOWN FINDING D15, formally D15_refuted (two different expanded nodes own one attractor).
+   'exactly one' clause fails for it: KNOWN FINDING D15, formally D15_refuted (two different expanded nodes own one attractor);
+   the 'at least one' clause holds: expand_scc_AttrServed / expand_scc_every_attractor_reported (no attractor is lost).
 
    This file contains only restatements closed by `exact` (statements produced by Coq's own
    `Check` of the library lemma) plus non-vacuity Examples, each followed by Print Assumptions. *)
@@ -19,7 +20,7 @@ Import ListNotations.
 From BB Require Import BN Brute SpaceFacts TrapFacts PercolateFacts AttractorFacts Diagram Invariants Checks Filter
   Strict PetriNet Control Meta FilterFacts PetriNetFacts TrappistFacts DiagramStruct DiagramSem1 DiagramCache
   DiagramDepth DiagramComplete Termination ControlFacts MetaFacts Candidates StrictFacts MinExpandFacts CandidatesFacts SymbolicTest SymbolicTestFacts Signed ReductionFacts ControlFacts2 Main Blocks BlocksFacts ObsFacts OwnerFacts CandidatesTerm
-  PartialOwner BlockMath BlockComplete ASeeds ASeedsFacts LogChecks SkipRule SkipRuleFacts Names NamesFacts Perm PermFacts SCC SCCFacts SCCStruct ControlFacts3 SCCTerm FilterSym Main2 StrategyFacts ControlFacts4 PyLib PySrc PySrcFacts SkipRuleFacts2 SCCComplete.
+  PartialOwner BlockMath BlockComplete ASeeds ASeedsFacts LogChecks SkipRule SkipRuleFacts Names NamesFacts Perm PermFacts SCC SCCFacts SCCStruct ControlFacts3 SCCTerm FilterSym Main2 StrategyFacts ControlFacts4 PyLib PySrc PySrcFacts SkipRuleFacts2 SCCComplete SCCAttr.
 
 (* given covering candidates, the filter returns exactly one seed per attractor of the node, and the sets are the attractors *)
 Theorem C01_filter_exact : forall (N : net) (S : space) (motifs : list space) (cands seeds : list state) (sets : list (list state)), trap_space N S -> (forall M : space, In M motifs -> trap_space N M /\ subspace M S = true) -> NoDup cands -> (forall c : state, In c cands -> in_space c S = true) -> covers N S motifs cands -> compute_attractors_filter N false motifs cands = (seeds, Some sets) -> one_to_one N S motifs seeds /\ length sets = length seeds /\ (forall (i : nat) (s : state) (X : list state), nth_error seeds i = Some s -> nth_error sets i = Some X -> forall t : state, In t X <-> reach N s t).
@@ -141,6 +142,14 @@ Proof. exact compute_attractors_sym_exact. Qed.
 Theorem C01_node_seeds_exact : forall (fuel : nat) (N : net) (S : space) (avoid : list space) (nfvs : list nat) (Rinit : retained) (cfg : ccfg) (greedy simulation : bool) (tape : list (list state)) (stp : simtape) (res : list state) (log : list call) (sfuel : nat) (stapes : sym_tape) (seeds : list state) (sets : list (list state)), trap_space N S -> (forall a : space, In a avoid -> trap_space N a /\ subspace a S = true) -> NoDup nfvs -> (forall v : nat, In v nfvs -> v < nvars N) -> retained_total nfvs Rinit -> no_neg_walk N S nfvs -> (is_full S = false -> nfvs = [] -> avoid <> [] -> fixed_points_avoided N S avoid) -> compute_candidates fuel N S avoid nfvs Rinit cfg greedy simulation tape stp = (COk res, log) -> tape_ok N S avoid log tape -> walks_ok fuel N S avoid nfvs Rinit cfg greedy tape stp -> NoDup res -> compute_attractors_sym sfuel N S false avoid res stapes = Some (seeds, Some sets) -> one_to_one N S avoid seeds /\ length sets = length seeds /\ (forall (i : nat) (s : state) (X : list state), nth_error seeds i = Some s -> nth_error sets i = Some X -> forall t : state, In t X <-> reach N s t).
 Proof. exact node_seeds_exact. Qed.
 
+(* source-SCC strategy from a fresh diagram: every attractor has an expanded owner *)
+Theorem C01_scc_strategy_loses_nothing : forall (fuel : nat) (N : net) (cfg : config) (d' : sd) (tape : tape_t), 1 <= max_motifs cfg -> expand_scc fuel N cfg (init N) false tape = (d', RBool true) -> AttrServed N d'.
+Proof. exact expand_scc_AttrServed. Qed.
+
+(* ... so exact per-node seeds represent every attractor at least once (D15 is only about duplicates) *)
+Theorem C01_scc_strategy_every_attractor_reported : forall (fuel : nat) (N : net) (cfg : config) (d' : sd) (tape : tape_t) (seeds : nat -> list state), 1 <= max_motifs cfg -> expand_scc fuel N cfg (init N) false tape = (d', RBool true) -> exp_seeds_ok N d' seeds -> forall A : state -> Prop, attractor N A -> exists (i : nat) (s : state), i < size d' /\ n_exp (get d' i) = true /\ In s (seeds i) /\ A s.
+Proof. exact expand_scc_every_attractor_reported. Qed.
+
 (* non-vacuity: two bistable switches; x0'=x1, x1'=x0, x2'=x3, x3'=x2 *)
 Definition ex_sw : net := [fun s => nth 1 s false; fun s => nth 0 s false; fun s => nth 3 s false; fun s => nth 2 s false].
 Definition ex_cfg : config := {| max_motifs := 1000 |}.
@@ -192,3 +201,5 @@ Print Assumptions C01_scc_strategy_refuted.
 Print Assumptions C01_scc_witness_facts.
 Print Assumptions C01_filter_with_symbolic_test_exact.
 Print Assumptions C01_node_seeds_exact.
+Print Assumptions C01_scc_strategy_loses_nothing.
+Print Assumptions C01_scc_strategy_every_attractor_reported.
